@@ -294,19 +294,42 @@ def job(prog):
   return real, hand
 
 
+def model_of(prog):
+  """Reference result of the hand-substituted program, or None when it is too big to be a useful case
+  (multiplicities square through chains of functor applications)."""
+  import json
+  import subprocess
+  req = semcheck.model_requests(prog.hand, [q for q in prog.hand.preds if q.name in prog.query])
+  try:
+    o = subprocess.run([core.DRIVER], input=(json.dumps(req, ensure_ascii=False) + '\n').encode('utf-8'),
+                       stdout=subprocess.PIPE, stderr=subprocess.PIPE, timeout=5)
+    model = json.loads(o.stdout.decode('utf-8'))
+  except Exception:  # noqa: BLE001
+    return None
+  if 'result' in model and max([len(v) for v in model['result'].values()] + [0]) > 2000:
+    return None
+  return model
+
+
 def run(ck):
-  drv = core.Driver()
-  progs, seen = [], set()
+  progs, models, seen = [], [], set()
   n = ck.budget(110, 1200)
   tries = 0
   while len(progs) < n and tries < 10 * n:
-    tries += 1
-    p = gen_case(ck.rng)
-    if not p.made or p.text() in seen:
-      continue
-    seen.add(p.text())
-    progs.append(p)
-  models = drv.ask_parallel([semcheck.model_requests(p.hand, [q for q in p.hand.preds if q.name in p.query]) for p in progs])
+    batch = []
+    while len(batch) < 2 * (n - len(progs)) and tries < 10 * n:
+      tries += 1
+      p = gen_case(ck.rng)
+      if not p.made or p.text() in seen:
+        continue
+      seen.add(p.text())
+      batch.append(p)
+    for p, m in zip(batch, core.pmap(model_of, batch)):
+      if m is not None and len(progs) < n:
+        progs.append(p)
+        models.append(m)
+      elif m is None:
+        ck.features['generated-too-big-discarded'] += 1
   results = core.pmap(job, progs)
   for p, (real, hand), model in zip(progs, results, models):
     text = p.text()
@@ -329,6 +352,9 @@ def run(ck):
       r, h = real[q], hand[q]
       rp = {'program': text, 'hand_substituted_program': p.hand.text(), 'pred': q, 'makes': p.info['makes']}
       kind = 'made' if q in p.made else ('user-of-made' if q.startswith('Q') else 'original')
+      if 'too_big' in (h['kind'], r['kind']):
+        ck.features['capacity-skipped'] += 1
+        continue
       if h['kind'] != 'ok':
         ck.notes.append('hand-substituted program does not evaluate: %s' % h.get('message', '')[:100])
         continue
